@@ -71,7 +71,8 @@ func genRecBer(o genOpts, w *bufio.Writer) {
 		fmt.Fprintf(w, "recber create %s\n", fmtReq(supi, nf, 7, 0, 0, 0, nil, nil))
 		seq := 1
 		upd := func(op string, us ...string) {
-			fmt.Fprintf(w, "recber %s %s %s\n", op, hexOf([]byte(sid)), fmtReq(supi, nf, 7, seq, 0, 0, nil, us))
+			// (updates and the release carry another charging id than the create: the session's records keep the create's)
+			fmt.Fprintf(w, "recber %s %s %s\n", op, hexOf([]byte(sid)), fmtReq(supi, nf, 7+seq%3, seq, 0, 0, nil, us))
 			seq++
 		}
 		upd("update", usage(1, 3, 3))
